@@ -135,6 +135,18 @@ def check(prog, rep):
                            + (f"captures the object and reads {sorted((state | nonkey) - key_attrs)} at call time" if escapes else f"depends on {sorted(nonkey)}")
                            + f": a second {kind} with the same name but another value gets the first one's result",
                            loc=where or fi.loc, detail="congruent")
+        # identity tests on a key component that the cache compares by name
+        for p in expr_params:
+            ann = [ast.unparse(a.annotation) for a in fi.node.args.args if a.arg == p][0]
+            if not any(k in ann or "Expression" in ann for k in neq):
+                continue
+            for n in walk_local(fi.node):
+                if isinstance(n, ast.Compare) and len(n.ops) == 1 and isinstance(n.ops[0], (ast.Is, ast.IsNot)):
+                    sides = [src(n.left), src(n.comparators[0])]
+                    if p in sides and not any(x in ("None",) for x in sides):
+                        rep.ob("R14.2", f"{fi.name}({p})", False,
+                               f"`{src(n)}` decides by object identity inside a function whose cache key compares {p} by name: the entry computed for one object is returned for every same-named object, for which the identity test would have gone the other way",
+                               loc=f"{fi.module.rel}:{n.lineno}", detail=f"identity-test-on-name-key:{src(n)[:30]}")
         # ------------------------------------------------------------------ R14.3 purity
         reach = cg.reachable([fi])
         glob = []
